@@ -13,8 +13,6 @@ import (
 // The translation is one constructor per go/ast node kind, nothing is simplified or reordered;
 // a node kind without a constructor becomes EOther / SOther carrying the node's Go type name.
 
-
-
 func mgCoqString(s string) string {
 	// Coq string literals: only the double quote is escaped (by doubling); identifiers and operators are ASCII
 	return "\"" + strings.ReplaceAll(s, "\"", "\"\"") + "\"%string"
